@@ -2,7 +2,7 @@ use std::io;
 use std::io::Read;
 
 use anyhow::{Context, Result};
-use clap::{App, Arg};
+use clap::{App, AppSettings, Arg};
 use serde_json;
 use serde_json::Value;
 
@@ -10,6 +10,9 @@ use jsonlogic_rs;
 
 fn configure_args<'a, 'b>(app: App<'a, 'b>) -> App<'a, 'b> {
     app.version(env!("CARGO_PKG_VERSION"))
+        // A JSON text may start with a minus sign: negative numbers are
+        // values for <logic> and <data>, not unknown flags.
+        .setting(AppSettings::AllowNegativeNumbers)
         .author("Matthew Planchard <msplanchard@gmail.com>")
         .about(
             "Parse JSON data with a JsonLogic rule.\n\
